@@ -22,7 +22,7 @@ import warnings
 from . import c11 as C11
 
 LEVEL = "exploration"
-TECHNIQUE = "runtime monitoring, offline history checker: sequences of 2-5 runs (fresh subprocesses, bytecode writing enabled) over one cache directory, each with its own hook set / typechecker / import order / source edit; per run and module the observed (instrumented?, by which spy, source version) is compared with the stateless expectation; .pyc files created per run are recorded; runs under python -O / -OO and -B, sources older than the library, re-hooking with another typechecker in one process, imports started deep inside the call stack (dense sweep of distances from the recursion limit), damaged cache entries, imports concurrent with a hooked load in another thread, and a source file saved again DURING its import (an audit hook performs the save at a chosen moment: before the read, at compile(), before the cache write); every module also reports __debug__, whether its assert fires and whether it has a docstring: the code executed was compiled for this run's optimisation level"
+TECHNIQUE = "runtime monitoring, offline history checker: sequences of 2-5 runs (fresh subprocesses, bytecode writing enabled) over one cache directory, each with its own hook set / typechecker / import order / source edit; per run and module the observed (instrumented?, by which spy, source version) is compared with the stateless expectation; .pyc files created per run are recorded; runs under python -O / -OO and -B, sources older than the library, re-hooking with another typechecker in one process, imports started deep inside the call stack (dense sweep of distances from the recursion limit), damaged cache entries, imports concurrent with a hooked load in another thread, and a source file saved again DURING its import (an audit hook performs the save at a chosen moment: before the read, at compile(), before the cache write); every module also reports __debug__, whether its assert fires and whether it has a docstring: the code executed was compiled for this run's optimisation level; runs in which a second copy of the library takes over after the first has served a hooked import"
 LEVEL_TEXT = (
     "Held on every generated history explored (each run a real interpreter start with PYTHONDONTWRITEBYTECODE unset, which "
     "this sandbox otherwise sets - the repository's suite can never read a cache back). Sampling over histories."
@@ -55,7 +55,7 @@ def required_counters(tier):
         "nested_unhooked_inside_hooked": 30,
         "nested_hooked_inside_unhooked": 10,
         "pyc_files_created": 200,
-        "runs_with_cache_present": 100, "runs_with_failing_hooked_import": 20, "runs_read_only_cache": 20, "in_process_reimport": 5, "in_process_edit_and_reimport": 5, "runs_with_checking_disabled": 15, "source_edits.same_mtime_other_size": 10, "in_process_rehook_with_other_checker": 5, "histories.sources_older_than_the_library": 20, "runs_python_O": 30, "histories.pycache_blocked": 5, "corrupt_cache.scenarios": 4, "concurrent_imports.scenarios": 1, "deep_import.modules": 10, "edit_during_import.scenarios": 8, "optimisation_level_observations": 500, "runs_with_foreign_cache_from_source_patch": 15,
+        "runs_with_cache_present": 100, "runs_with_failing_hooked_import": 20, "runs_read_only_cache": 20, "in_process_reimport": 5, "in_process_edit_and_reimport": 5, "runs_with_checking_disabled": 15, "source_edits.same_mtime_other_size": 10, "in_process_rehook_with_other_checker": 5, "histories.sources_older_than_the_library": 20, "runs_python_O": 30, "histories.pycache_blocked": 5, "corrupt_cache.scenarios": 4, "concurrent_imports.scenarios": 1, "deep_import.modules": 10, "edit_during_import.scenarios": 8, "optimisation_level_observations": 500, "runs_with_foreign_cache_from_source_patch": 15, "runs_with_a_second_copy_of_the_library": 8,
     }
 
 
@@ -70,6 +70,8 @@ def write_forest(root, mods, versions):
         f.write(C11.SPY + "\nimport spyhelper  # (last: a hooked spyhelper may call back into this module while it loads)\n")
     with open(os.path.join(root, BROKEN + ".py"), "w") as f:
         f.write("def f(:\n    pass\n")  # does not compile
+    with open(os.path.join(root, "jtv_firstcopy_mod.py"), "w") as f:
+        f.write("X = 1\n")  # (served through the hook by the FIRST copy of the library in 'second_copy' runs)
     for m in mods:
         set_version(root, mods, m, versions[m], bump=False)
 
@@ -148,6 +150,8 @@ def gen_run(rng, mods):
         end = rng.choice(imports_at[1:])
         ops.insert(end, {"op": "foreign_patch_end"})
         ops.insert(rng.choice((0, 1)), {"op": "foreign_patch_begin"})
+    if ops and ops[0]["op"] == "install" and rng.random() < 0.12:
+        ops.insert(0, {"op": "second_copy"})
     if rng.random() < 0.3:
         # an optional module that fails to compile, hooked or not, somewhere among the imports
         if ops and ops[0]["op"] == "install" and rng.random() < 0.7:
@@ -248,6 +252,8 @@ def run_history(rec, rng, key):
             after = pycs(root)
             created = sorted(after - before)
             rec.count("runs")
+            if any(o["op"] == "second_copy" for o in ops):
+                rec.count("runs_with_a_second_copy_of_the_library")
             if any(o["op"] == "foreign_patch_begin" for o in ops):
                 rec.count("runs_with_foreign_cache_from_source_patch")
             rec.count("pyc_files_created", len(created))
